@@ -331,13 +331,9 @@ class Stream(meta(Iterable, metaclass=StreamMeta)):
     after requesting the next value.
 
     """
-    def skipper(data):
-      for _ in it.islice(data, max(int(round(n)), 0)):
-        pass
-      for el in data:
-        yield el
-
-    self._data = skipper(self._data)
+    # No generator here: each one is an interpreter frame when an item is
+    # pulled, so many stacked skips would exhaust the recursion limit
+    self._data = it.islice(self._data, max(int(round(n)), 0), None)
     return self
 
   def limit(self, n):
